@@ -239,6 +239,32 @@ func c19Once(c *mon.Ctx) {
 	}
 }
 
+// arpaSpelling re-spells a reverse-DNS name: 0 as it is, 1 zone suffix in upper case, 2 mixed-case suffix, 3 all upper
+// case, 4 upper-case labels in front of a lower-case suffix, 5 only the last label (ARPA) upper.
+func arpaSpelling(name string, k int) string {
+	i := strings.Index(name, ".in-addr.arpa")
+	if i < 0 {
+		i = strings.Index(name, ".ip6.arpa")
+	}
+	if i < 0 {
+		return name
+	}
+	head, zone := name[:i], name[i:]
+	switch k {
+	case 1:
+		return head + strings.ToUpper(zone)
+	case 2:
+		return head + strings.NewReplacer("in-addr", "In-Addr", "ip6", "Ip6", "arpa", "Arpa").Replace(zone)
+	case 3:
+		return strings.ToUpper(name)
+	case 4:
+		return strings.ToUpper(head) + zone
+	case 5:
+		return head + strings.Replace(zone, "arpa", "ARPA", 1)
+	}
+	return name
+}
+
 func arpaName(ip net.IP) string {
 	if v4 := ip.To4(); v4 != nil {
 		return fmt.Sprintf("%d.%d.%d.%d.in-addr.arpa", v4[3], v4[2], v4[1], v4[0])
@@ -502,7 +528,9 @@ func init() {
 				c19Lint(c, g, spec.DER(), "e_ext_nc_intersects_reserved_ip", want, shape+", first permitted "+n.String())
 			default: // reverse-DNS name
 				ip := c19RandAddr(rng)
-				name := arpaName(ip)
+				// DNS names compare case-insensitively: the zone suffix and the hexadecimal nibbles in any spelling
+				name := arpaSpelling(arpaName(ip), rng.Intn(6))
+				c.R.Distinct("arpa_spellings", fmt.Sprint(strings.ToLower(name) != name, strings.HasSuffix(name, ".arpa")))
 				spec := gen.TLSLeaf(nb, "www.example.com", name)
 				want := lint.Pass
 				if isRes(ip) {
@@ -519,7 +547,7 @@ func init() {
 					names := []string{"www.example.com"}
 					wantM := lint.Pass
 					for _, x := range ips {
-						names = append(names, arpaName(x))
+						names = append(names, arpaSpelling(arpaName(x), rng.Intn(6)))
 						if isRes(x) {
 							wantM = lint.Error
 						}
